@@ -4,7 +4,7 @@ import numpy as np
 from hypothesis import strategies as st
 
 from vpm.core import Prop, close
-from vpm.gen.mdp import mdp_specs, policy_specs
+from vpm.gen.mdp import mdp_specs, policy_specs, large_mdp_specs, large_policy
 from vpm.build import build_mdp, build_tabular_policy
 from vpm.ref.mdp import RefMDP
 
@@ -15,7 +15,7 @@ RULE = ("MDP spec (discounted any-sign rewards, or undiscounted with rewards <= 
         "closed-class analysis on the spec. Non-trivial: policy stochastic at >=1 non-absorbing state and >=2 "
         "non-absorbing states (for gamma=1 additionally a closed non-absorbing class exists under the policy); "
         "distinct by spec hash.")
-ASSUMPTIONS = ["numpy.linalg.solve on <=6x6 systems", "action values at absorbing states are not asserted "
+ASSUMPTIONS = ["numpy.linalg.solve on <=6x6 systems (<=45x45 in the large class)", "action values at absorbing states are not asserted "
                "(the statement fixes only their state value, 0)"]
 
 
@@ -32,6 +32,14 @@ def cases(draw, tier="quick"):
                           mdp_specs("negative", max_states=6 if big else 5)))
     pol = draw(policy_specs(spec))
     return {"mdp": spec, "policy": pol, "perm_seed": draw(st.integers(0, 5))}
+
+
+def large_cases(tier):
+    """tens of states: reachability closures, closed-class detection and the linear solves on realistic sizes"""
+    return st.tuples(st.one_of(large_mdp_specs("negative", max_actions=3, max_out=4), large_mdp_specs("negative", max_actions=2, max_out=2),
+                               large_mdp_specs("discounted"), large_mdp_specs("discounted", gammas=NEAR_ONE)),
+                     st.integers(0, 2 ** 32), st.integers(0, 3)).map(
+        lambda t: {"mdp": t[0], "policy": large_policy(t[0], t[1]), "perm_seed": t[2]})
 
 
 def prop_eval(case, ctx):
@@ -138,4 +146,6 @@ def prop_eval(case, ctx):
 
 
 PROPS = [Prop("evaluate", lambda tier: cases(tier), prop_eval, quick=8000, thorough=450000,
-              doc="TabularPolicy.evaluate_on vs independent linear-solve / closed-class oracle")]
+              doc="TabularPolicy.evaluate_on vs independent linear-solve / closed-class oracle"),
+         Prop("evaluate_large", large_cases, prop_eval, quick=600, thorough=40000,
+              doc="the same on MDPs with 16-45 states (sparse / dense / ragged action sets, uniform / mixed / one-hot policies)")]
